@@ -15,6 +15,7 @@ import (
 // SeqCase: a sequence of valid requests on one instance with one fault injected at a drawn position.
 type SeqCase struct {
 	Mask, Mapper, Indirect bool
+	Verbose, Bulky         bool
 	Requests               []SeqReq
 	FaultAt                int // index into Requests of the request that meets the fault
 	Fault                  Fault
@@ -27,6 +28,8 @@ type SeqReq struct {
 
 func genSeq(t *rapid.T) SeqCase {
 	c := SeqCase{Mask: rapid.Bool().Draw(t, "mask"), Mapper: rapid.Bool().Draw(t, "mapper"), Indirect: rapid.Bool().Draw(t, "indirect")}
+	c.Verbose = rapid.IntRange(0, 3).Draw(t, "verbose") == 0
+	c.Bulky = rapid.IntRange(0, 5).Draw(t, "bulky") == 0
 	n := rapid.IntRange(1, 6).Draw(t, "n")
 	for i := 0; i < n; i++ {
 		c.Requests = append(c.Requests, SeqReq{Endpoint: rapid.SampledFrom(endpoints).Draw(t, "ep"), Variant: rapid.IntRange(0, 1000).Draw(t, "variant")})
@@ -38,14 +41,22 @@ func genSeq(t *rapid.T) SeqCase {
 }
 
 func checkSeq(t *testing.T, c SeqCase) (v harness.Verdict) {
-	r := newRig(t, c.Mask, c.Mapper, c.Indirect)
+	if c.Verbose {
+		harness.SetKlogVerbosity(3)
+		defer harness.SetKlogVerbosity(0)
+		v.Class("debug-logging-on")
+	}
+	if c.Bulky {
+		v.Class("bulky-entries")
+	}
+	r := newRigB(t, c.Mask, c.Mapper, c.Indirect, c.Bulky)
 	v.NonTrivial = len(c.Requests) > 1
 	for i, rq := range c.Requests {
 		faulty := i == c.FaultAt
 		if faulty {
 			r.arm(rq.Endpoint, c.Fault, 0)
 		}
-		q := validRequest(rq.Endpoint, rq.Variant, faulty && c.Fault.Kind == "beyond-tree")
+		q := validRequestB(rq.Endpoint, rq.Variant, faulty && c.Fault.Kind == "beyond-tree", c.Bulky)
 		o := r.do(q)
 		r.be.Intercept, r.be.Mutate = nil, nil
 		if faulty {
